@@ -49,6 +49,41 @@ mod proofs {
     instantiate_pke!(V = V, PKE_LEN = 129, RCPT = rcpt(), ARM = arm, DRAWS = draws);
 
     h!(local_nonce_is_draw_, local_nonce_is_draw::<V>(32, last_draw));
+
+    /// C03: the blocks fed to AES are IV, IV+1 (mod 2^128): AES-256-CTR with a full-width big-endian
+    /// counter, as the PASETO spec (OpenSSL aes-256-ctr) and the aws-lc backend use.
+    h!(c03_local_ctr_counter_128bit, {
+        let kb: [u8; 32] = kani::any();
+        let key = forget(<V as HasKey<Local>>::decode(&kb)).unwrap();
+        let msg = Bytes::any(17);
+        let n0 = unsafe { aes::NBLOCKS };
+        let sealed = forget(seal_like_lib::<V, Local>(&key, msg.s(), b"", b""));
+        assert!(sealed.is_some());
+        let n1 = unsafe { aes::NBLOCKS };
+        assert!(n1 == n0 + 2, "17 bytes of plaintext must take exactly two AES blocks");
+        let (b0, b1) = unsafe { (aes::BLOCKS[n0], aes::BLOCKS[n0 + 1]) };
+        let want = u128::from_be_bytes(b0).wrapping_add(1).to_be_bytes();
+        assert!(b1 == want, "AES-CTR counter is not a 128-bit big-endian counter");
+        kani::cover!(b0[15] == 0xff && b0[14] == 0xff, "counter carries out of the low 16 bits");
+        core::mem::forget(sealed);
+    });
+    /// C07: same for PIE key wrapping (IV derived) — 32-byte key = two blocks
+    h!(c07_pie_ctr_counter_128bit, {
+        let kb: [u8; 32] = kani::any();
+        let wk = forget(<V as HasKey<Local>>::decode(&kb)).unwrap();
+        let kd: [u8; 32] = kani::any();
+        let mut v = alloc::vec::Vec::with_capacity(32);
+        v.extend_from_slice(&kd);
+        let n0 = unsafe { aes::NBLOCKS };
+        let out = forget(<V as paseto_core::paserk::PieWrapVersion>::pie_wrap_key(".local-wrap.pie.", &wk, v));
+        assert!(out.is_some());
+        let (b0, b1) = unsafe { (aes::BLOCKS[n0], aes::BLOCKS[n0 + 1]) };
+        assert!(unsafe { aes::NBLOCKS } == n0 + 2);
+        let want = u128::from_be_bytes(b0).wrapping_add(1).to_be_bytes();
+        assert!(b1 == want, "AES-CTR counter is not a 128-bit big-endian counter");
+        kani::cover!(b0[15] == 0xff, "low byte carries");
+        core::mem::forget(out);
+    });
     h!(public_rng_fail_closed_, public_rng_fail_closed::<V>(arm, draws));
     h!(pw_rng_fail_closed_at0, pw_rng_fail_closed::<V, 0>(".local-pw.", arm, draws));
     h!(pw_rng_fail_closed_at1, pw_rng_fail_closed::<V, 1>(".local-pw.", arm, draws));
